@@ -1,1 +1,87 @@
-fn main() { unimplemented!() }
+//! C14 — file-system post-conditions of tiny_std::fs (write/read/copy, create_dir_all,
+//! remove_dir_all, directory iteration): bounded-exhaustive enumeration (engine E4) of
+//! prior states x path shapes x tree shapes on the REAL functions inside fresh temp
+//! directories, and an explicit-state search (engine E3) over operation sequences, with a
+//! boring reference tree model and std::fs as the independent observer.
+//!
+//! Phases: mkdirall, rwcopy, readdir, rmall, seq.
+
+mod mkdirall;
+mod readdir;
+mod rmall;
+mod rwcopy;
+mod seq;
+mod util;
+
+use common::*;
+
+fn main() {
+    let args = parse_args();
+    install_panic_hook();
+    if let Some(p) = &args.replay {
+        let v = read_replay(p);
+        let mut r = Report::new();
+        replay(&v, &mut r);
+        for v in r.violations.values() {
+            println!("VIOLATED {}: {}", v.key, v.desc);
+        }
+        if r.violations.is_empty() {
+            println!("no violation; outcomes: {:?}", r.outcomes);
+        }
+        std::process::exit(if r.violations.is_empty() { 0 } else { 1 });
+    }
+    let phase = args.phase.clone().unwrap_or_else(|| "mkdirall".into());
+    let t0 = now();
+    let master = util::Master::new(&phase);
+    let mut r = match phase.as_str() {
+        "mkdirall" => mkdirall::phase(&args, &master.path),
+        "rwcopy" => rwcopy::phase(&args, &master.path),
+        "readdir" => readdir::phase(&args, &master.path),
+        "rmall" => rmall::phase(&args, &master.path),
+        "seq" => seq::phase(&args, &master.path),
+        _ => panic!("unknown phase (mkdirall|rwcopy|readdir|rmall|seq)"),
+    };
+    drop(master);
+    let (tb, why) = util::temp_base();
+    r.bound("temp_dir", format!("{} ({why})", tb.display()));
+    eprintln!("h-fs {phase}: {} cases, {} violation keys, {:.1}s", r.evaluations, r.violations.len(), t0.elapsed().as_secs_f64());
+    r.write(&args.out);
+}
+
+fn replay(v: &serde_json::Value, r: &mut Report) {
+    let phase = v["phase"].as_str().unwrap_or("");
+    println!("replaying {v}");
+    let master = if v["fs"].as_str() == Some("std-temp-dir") {
+        util::ON_STD_TMP.store(true, std::sync::atomic::Ordering::SeqCst);
+        util::Master::new_in(&std::env::temp_dir(), "replay")
+    } else {
+        util::Master::new("replay")
+    };
+    let block = master.path.join("b0");
+    std::fs::create_dir_all(&block).unwrap();
+    match phase {
+        "mkdirall" => mkdirall::run_case(&block, &mkdirall::MkCase::from_json(v).expect("mkdirall case"), r),
+        "rwcopy" => {
+            // a read / read_to_string crash record wraps the case it followed
+            let v = if v.get("of").is_some() { &v["of"] } else { v };
+            rwcopy::run_case(&block, &rwcopy::RwCase::from_json(v).expect("rwcopy case"), r)
+        }
+        "readdir" => {
+            let known = readdir::probe_dtype(&master.path);
+            readdir::DTYPE_UNKNOWN_FS.store(!known, std::sync::atomic::Ordering::SeqCst);
+            readdir::run_case(&block, &readdir::RdCase::from_json(v).expect("readdir case"), r)
+        }
+        "rmall" => rmall::run_case(&block, &rmall::RmCase::from_json(v).expect("rmall case"), r),
+        "seq" => {
+            let (h, op) = seq::parse_case(v).expect("seq case");
+            let (before, after) = seq::step(&block, &h, op, r);
+            println!("state before: {}", util::snap_show(&before));
+            println!("state after:  {}", util::snap_show(&after));
+        }
+        _ => panic!("replay: unknown phase {phase:?}"),
+    }
+    for n in &r.notes {
+        println!("note: {n}");
+    }
+    drop(master);
+}
